@@ -142,3 +142,77 @@ Lemma writer_reduced_rules_agree :
   writer_oneof_rules_empty = emits_typeless (TOneof [67%N] true None) /\
   writer_timestamp_rules_empty = model_timestamp_rules_empty.
 Proof. repeat split; vm_compute; reflexivity. Qed.
+
+(* ---- the declaration language against schema.proto ------------------------------------
+   Every field of every field-type message of schema.proto (with its Rules and Ext),
+   ObjectProperty, KeyFormat and EntityKey, with its place in the models: InModel (a
+   component of RulesDecl.fty / pty / prop, RulesCompile.xprop, RulesNested / RulesInlineEnum)
+   or Outside (named in the propcfg texts). A field added to schema.proto, or one renamed,
+   breaks [schema_vocabulary_covered] until it is given a place here. *)
+Inductive vstatus := InModel | Outside.
+Local Open Scope string_scope.
+Definition vocabulary : list (String.string * list (String.string * vstatus)) := [
+  ("AnyField", [("only_defined", InModel); ("list_rules", InModel); ("types", InModel)]);
+  ("ArrayField", [("rules", InModel); ("items", InModel); ("ext", InModel)]);
+  ("ArrayField.Ext", [("single_form", InModel)]);
+  ("ArrayField.Rules", [("min_items", InModel); ("max_items", InModel); ("unique_items", InModel)]);
+  (* Ext of a scalar / message field type is an empty message: its presence is not in the language *)
+  ("BoolField", [("rules", InModel); ("list_rules", InModel); ("ext", Outside)]);
+  ("BoolField.Ext", []);
+  ("BoolField.Rules", [("const", InModel)]);
+  ("BytesField", [("rules", InModel); ("ext", Outside)]);
+  ("BytesField.Ext", []);
+  ("BytesField.Rules", [("min_length", InModel); ("max_length", InModel)]);
+  ("DateField", [("rules", InModel); ("list_rules", InModel); ("ext", Outside)]);
+  ("DateField.Ext", []);
+  ("DateField.Rules", [("minimum", InModel); ("maximum", InModel); ("exclusive_minimum", InModel); ("exclusive_maximum", InModel)]);
+  ("DecimalField", [("rules", InModel); ("list_rules", InModel); ("ext", Outside)]);
+  ("DecimalField.Ext", []);
+  ("DecimalField.Rules", [("minimum", InModel); ("maximum", InModel); ("exclusive_minimum", InModel); ("exclusive_maximum", InModel)]);
+  ("EntityKey", [("primary_key", InModel); ("foreign_key", InModel); ("tenant_key", InModel)]);
+  (* ref: the enum of the compile unit (enum_env); enum: RulesInlineEnum.ienum *)
+  ("EnumField", [("ref", InModel); ("enum", InModel); ("rules", InModel); ("list_rules", InModel); ("ext", Outside)]);
+  ("EnumField.Ext", []);
+  ("EnumField.Rules", [("in", InModel); ("not_in", InModel)]);
+  (* float rules: only their presence is in the language (TFloat _ rules _): a compile error *)
+  ("FloatField", [("format", InModel); ("rules", InModel); ("list_rules", InModel); ("ext", Outside)]);
+  ("FloatField.Ext", []);
+  ("FloatField.Rules", [("exclusive_maximum", Outside); ("exclusive_minimum", Outside); ("minimum", Outside); ("maximum", Outside); ("multiple_of", Outside)]);
+  (* multiple_of: RulesCompile.x_mult *)
+  ("IntegerField", [("format", InModel); ("rules", InModel); ("list_rules", InModel); ("ext", Outside)]);
+  ("IntegerField.Ext", []);
+  ("IntegerField.Rules", [("exclusive_maximum", InModel); ("exclusive_minimum", InModel); ("minimum", InModel); ("maximum", InModel); ("multiple_of", InModel)]);
+  ("KeyField", [("rules", Outside); ("format", InModel); ("list_rules", InModel); ("ext", Outside); ("entity", InModel)]);
+  ("KeyField.Ext", []);
+  ("KeyField.Rules", []);
+  ("KeyFormat", [("informal", InModel); ("custom", InModel); ("uuid", InModel); ("id62", InModel)]);
+  ("KeyFormat.Custom", [("pattern", InModel)]);
+  (* key_schema: always a string, the compiler does not look at it; ext: RulesCompile.x_map_ext *)
+  ("MapField", [("item_schema", InModel); ("key_schema", Outside); ("rules", InModel); ("ext", InModel)]);
+  ("MapField.Ext", [("single_form", InModel)]);
+  ("MapField.Rules", [("min_pairs", InModel); ("max_pairs", InModel)]);
+  (* object: RulesNested (inline schemas); entity (EntityJoin): outside *)
+  ("ObjectField", [("ref", InModel); ("object", InModel); ("rules", InModel); ("ext", Outside); ("flatten", InModel); ("entity", Outside)]);
+  ("ObjectField.EntityJoin", [("entity", Outside); ("entity_part", Outside)]);
+  ("ObjectField.Ext", []);
+  ("ObjectField.Rules", [("min_properties", InModel); ("max_properties", InModel)]);
+  ("ObjectProperty", [("schema", InModel); ("name", InModel); ("required", InModel); ("explicitly_optional", InModel); ("description", InModel); ("proto_field", InModel)]);
+  ("OneofField", [("ref", InModel); ("oneof", InModel); ("rules", InModel); ("list_rules", InModel); ("ext", Outside)]);
+  ("OneofField.Ext", []);
+  ("OneofField.Rules", []);
+  ("StringField", [("format", InModel); ("rules", InModel); ("list_rules", InModel); ("ext", Outside)]);
+  ("StringField.Ext", []);
+  ("StringField.Rules", [("pattern", InModel); ("min_length", InModel); ("max_length", InModel)]);
+  ("TimestampField", [("rules", InModel); ("list_rules", InModel); ("ext", Outside)]);
+  ("TimestampField.Ext", []);
+  ("TimestampField.Rules", [("minimum", InModel); ("maximum", InModel); ("exclusive_minimum", InModel); ("exclusive_maximum", InModel)])
+].
+Local Close Scope string_scope.
+
+Lemma schema_vocabulary_covered :
+  map (fun e => (fst e, map fst (snd e))) vocabulary = RulesGen.schema_vocabulary.
+Proof. vm_compute. reflexivity. Qed.
+
+(* the fields of schema.proto that are outside the declaration language of the models *)
+Definition vocabulary_outside : list (String.string * String.string) :=
+  flat_map (fun e => flat_map (fun f => match snd f with Outside => [(fst e, fst f)] | InModel => [] end) (snd e)) vocabulary.
